@@ -51,3 +51,20 @@ Print Assumptions C17_sat_decimal.
 (* non-vacuity *)
 Example C17_ex : encode_varint 70000 = Some [254; 112; 17; 1; 0] /\ to_satoshis_dec 2099999997690000 8 = 2099999997690000.
 Proof. split; reflexivity. Qed.
+
+(* ---- the float path: amounts given as the binary64 nearest to k / 10^8 (what `k / 1e8` or a decimal
+   literal with at most eight decimals produces), for every amount up to 21 million BTC.
+   Model: Flocq's round-to-nearest-even on FLT_exp(-1074, 53) for the division and the multiplication,
+   exact round-half-even for Python's round().  Assumption: CPython floats are IEEE-754 binary64. *)
+From Coq Require Import Reals.
+From BU Require Import Proofs.SatFloat.
+Theorem C17_sat_float : forall k : Z, (0 <= k <= 2100000000000000)%Z -> to_satoshis_float k = k.
+Proof. exact sat_float_exact. Qed.
+Print Assumptions C17_sat_float.
+
+(* any double within relative distance 2^-52 of k / 10^8 (the 0.1 + 0.2 family), up to 10^15 satoshis *)
+Theorem C17_sat_float_near : forall (k : Z) (x : R), (0 <= k <= 10 ^ 15)%Z ->
+  (Rabs (x - IZR k / 100000000) <= 2 * Flocq.Core.Raux.bpow Flocq.Core.Zaux.radix2 (-53) * (IZR k / 100000000))%R ->
+  py_round (rnd64 (x * 100000000)) = k.
+Proof. exact sat_float_near. Qed.
+Print Assumptions C17_sat_float_near.
